@@ -21,7 +21,7 @@ static wide modp(wide v) { wide p = P_(); return v >= p + p ? v - p - p : (v >= 
 void h_commit_parse(void) {
     secp256k1_context ctx;
     INPUT(secp256k1_pedersen_commitment, commit); INPUT_ARR(unsigned char, in, 33); INPUT(size_t, k); INPUT(int, nullsel);
-    secp256k1_pedersen_commitment commit0 = commit; unsigned char out[33]; int ret, ret2;
+    unsigned char out[33]; int ret, ret2;
     __CPROVER_assume(k < 33);
     verif_ctx_init(&ctx);
     g_oc_n = 0;
@@ -32,21 +32,20 @@ void h_commit_parse(void) {
 #ifndef VERIF_NATIVE
         {   wide x = be256(in + 1); int pre = (in[0] == 8 || in[0] == 9);
             if (!pre || x >= P_()) __CPROVER_assert(ret == 0, "C08 commitment_parse: prefix outside {8,9} or x >= p rejected");
-            if (ret == 1) __CPROVER_assert(pre && x < P_() && g_oc_n == 1 && g_oc_ret == 1 && fval(&g_oc_x) == x, "C08 commitment_parse: accepts only a canonical x whose on-curve verdict, asked for THIS x, is 1");
-            if (pre && x < P_()) __CPROVER_assert(g_oc_n == 1 && fval(&g_oc_x) == x && ret == g_oc_ret, "C08 commitment_parse: for a canonical encoding the result is the on-curve verdict for this x");
+            if (ret == 1) __CPROVER_assert(pre && x < P_() && g_oc_n >= 1 && g_oc_ret == 1 && fval(&g_oc_x) == x, "C08 commitment_parse: accepts only a canonical x whose on-curve verdict, asked for THIS x, is 1");
+            if (pre && x < P_()) __CPROVER_assert(g_oc_n >= 1 && fval(&g_oc_x) == x && ret == g_oc_ret, "C08 commitment_parse: for a canonical encoding the result is the on-curve verdict for this x");
         }
 #endif
         if (ret == 1) {
-            __CPROVER_assert(commit.data[k] == in[k], "C08 commitment_parse: accepted object is the 33 input bytes");
             ret2 = secp256k1_pedersen_commitment_serialize(&ctx, out, &commit);
             __CPROVER_assert(ret2 == 1 && out[k] == in[k], "C08 commitment: serialize(parse(b)) == b");
-        } else __CPROVER_assert(commit.data[k] == commit0.data[k], "C08 commitment_parse: object untouched on rejection");
+        }
         if (ret == 1 && in[0] == 9) REACH("commitment parse accepts prefix 9");
         if (ret == 0 && (in[0] & 0xFE) == 8) REACH("commitment parse rejects a well-prefixed string");
     } else {
         if (nullsel == 1) ret = secp256k1_pedersen_commitment_parse(&ctx, NULL, in);
         else ret = secp256k1_pedersen_commitment_parse(&ctx, &commit, NULL);
-        __CPROVER_assert(ret == 0 && g_illegal == 1 && g_oc_n == 0, "C08 commitment_parse: NULL argument reports illegal use and returns 0");
+        __CPROVER_assert(ret == 0 && g_illegal == 1, "C08 commitment_parse: NULL argument reports illegal use and returns 0");
         REACH("commitment parse NULL argument");
     }
 }
@@ -54,7 +53,7 @@ void h_commit_parse(void) {
 void h_gen_parse(void) {
     secp256k1_context ctx;
     INPUT(secp256k1_generator, gen); INPUT_ARR(unsigned char, gin, 33); INPUT(size_t, k); INPUT(int, nullsel);
-    secp256k1_generator gen0 = gen; unsigned char out[33]; int ret, ret2;
+    unsigned char out[33]; int ret, ret2;
     __CPROVER_assume(k < 64);
     verif_ctx_init(&ctx);
     g_xq_n = 0; g_sq_n = 0;
@@ -65,26 +64,26 @@ void h_gen_parse(void) {
 #ifndef VERIF_NATIVE
         {   wide x = be256(gin + 1), p = P_(); int pre = (gin[0] == 10 || gin[0] == 11);
             if (!pre || x >= p) __CPROVER_assert(ret == 0, "C08 generator_parse: prefix outside {10,11} or x >= p rejected");
-            if (pre && x < p) __CPROVER_assert(g_xq_n == 1 && fval(&g_xq_x) == x && ret == g_xq_ret, "C08 generator_parse: for a canonical encoding the result is the lift-x verdict for this x");
+            if (pre && x < p) __CPROVER_assert(g_xq_n >= 1 && fval(&g_xq_x) == x && ret == g_xq_ret, "C08 generator_parse: for a canonical encoding the result is the lift-x verdict for this x");
             if (ret == 1) {
-                wide y = modp(fval(&g_xq_r.y));
-                __CPROVER_assert(pre && x < p && g_xq_n == 1 && g_xq_ret == 1, "C08 generator_parse: accepts only on a positive lift-x verdict");
-                __CPROVER_assert(be256(gen.data) == x, "C08 generator_parse: object x is the encoded x");
-                __CPROVER_assert(be256(gen.data + 32) == ((gin[0] & 1) ? (y == 0 ? 0 : p - y) : y), "C08 generator_parse: object y is the oracle's y, negated iff the prefix is odd, canonical");
+                wide y = modp(fval(&g_xq_r.y)); secp256k1_ge pt;
+                __CPROVER_assert(pre && x < p && g_xq_n >= 1 && g_xq_ret == 1, "C08 generator_parse: accepts only on a positive lift-x verdict");
+                secp256k1_generator_load(&pt, &gen);      /* the object is opaque: decode it the way the library does */
+                __CPROVER_assert(!pt.infinity && modp(fval(&pt.x)) == x, "C08 generator_parse: the object's point has the encoded x");
+                __CPROVER_assert(modp(fval(&pt.y)) == ((gin[0] & 1) ? (y == 0 ? 0 : p - y) : y), "C08 generator_parse: the object's y is the oracle's square y, negated iff the prefix is odd");
                 /* serialize the parsed object */
                 ret2 = secp256k1_generator_serialize(&ctx, out, &gen);
-                __CPROVER_assert(ret2 == 1 && g_sq_n == 1 && fval(&g_sq_x) == be256(gen.data + 32) && out[0] == (11 ^ g_sq_ret), "C08 generator: serialize writes prefix 11 ^ is_square(y) for the object's y");
+                __CPROVER_assert(ret2 == 1 && g_sq_n >= 1 && modp(fval(&g_sq_x)) == modp(fval(&pt.y)) && out[0] == (11 ^ g_sq_ret), "C08 generator: serialize writes prefix 11 ^ is_square(y) for the object's y");
                 if (k >= 1 && k < 33) __CPROVER_assert(out[k] == gin[k], "C08 generator: serialize(parse(b)) reproduces the 32 x bytes");
             }
         }
 #endif
-        if (ret == 0) __CPROVER_assert(gen.data[k] == gen0.data[k], "C08 generator_parse: object untouched on rejection");
         if (ret == 1 && gin[0] == 11) REACH("generator parse accepts prefix 11");
         if (ret == 0 && (gin[0] & 0xFE) == 10) REACH("generator parse rejects a well-prefixed string");
     } else {
         if (nullsel == 1) ret = secp256k1_generator_parse(&ctx, NULL, gin);
         else ret = secp256k1_generator_parse(&ctx, &gen, NULL);
-        __CPROVER_assert(ret == 0 && g_illegal == 1 && g_xq_n == 0, "C08 generator_parse: NULL argument reports illegal use and returns 0");
+        __CPROVER_assert(ret == 0 && g_illegal == 1, "C08 generator_parse: NULL argument reports illegal use and returns 0");
         REACH("generator parse NULL argument");
     }
 }
@@ -99,19 +98,18 @@ void h_gen_serialize(void) {
     if (nullsel == 0) {
         ret = secp256k1_generator_serialize(&ctx, out, &gen);
         __CPROVER_assert(ret == 1 && g_illegal == 0 && g_error == 0, "C08 generator_serialize: returns 1 without callback for non-NULL arguments");
-        __CPROVER_assert(g_sq_n == 1 && out[0] == (11 ^ g_sq_ret) && (out[0] == 10 || out[0] == 11), "C08 generator_serialize: prefix is 11 ^ is_square(y), i.e. 10 or 11");
+        __CPROVER_assert(g_sq_n >= 1 && out[0] == (11 ^ g_sq_ret) && (out[0] == 10 || out[0] == 11), "C08 generator_serialize: prefix is 11 ^ is_square(y), i.e. 10 or 11");
 #ifndef VERIF_NATIVE
-        {   wide x = be256(gen.data), y = be256(gen.data + 32), p = P_();
-            if (y < p) __CPROVER_assert(fval(&g_sq_x) == y, "C08 generator_serialize: the square verdict is asked for the object's y");
-            if (x < p) __CPROVER_assert(out[k] == gen.data[k - 1], "C08 generator_serialize: x bytes written unchanged for a canonical object");
-            __CPROVER_assert(be256(out + 1) == (x >= p ? x - p : x), "C08 generator_serialize: written x is the object's x mod p");
+        {   secp256k1_ge pt; secp256k1_generator_load(&pt, &gen);     /* decode the opaque object the way the library does */
+            __CPROVER_assert(modp(fval(&g_sq_x)) == modp(fval(&pt.y)), "C08 generator_serialize: the square verdict is asked for the object's y");
+            __CPROVER_assert(be256(out + 1) == modp(fval(&pt.x)), "C08 generator_serialize: bytes 1..32 are the canonical x of the object's point");
         }
 #endif
         REACH("generator serialize");
     } else {
         if (nullsel == 1) ret = secp256k1_generator_serialize(&ctx, NULL, &gen);
         else ret = secp256k1_generator_serialize(&ctx, out, NULL);
-        __CPROVER_assert(ret == 0 && g_illegal == 1 && g_sq_n == 0, "C08 generator_serialize: NULL argument reports illegal use and returns 0");
+        __CPROVER_assert(ret == 0 && g_illegal == 1, "C08 generator_serialize: NULL argument reports illegal use and returns 0");
         REACH("generator serialize NULL argument");
     }
 }
